@@ -104,7 +104,7 @@ def step (st : St) (op impl : List String) : St × Verdict :=
         let v := cmp s!"{outS { r with kfreq := false }} | {layerS (unpack r.st.word)}" (impl.filter (· ≠ "kfreq"))
         let (outT, layT) := splitBar impl
         let (_, sent, _) := parseOut outT
-        let ov := (nackOracle o n sent).map (fun m => m ++ s!" [receiver {i}]")
+        let ov := (nackOracle o n sent (parseLayer layT)).map (fun m => m ++ s!" [receiver {i}]")
         let o' := match parseLayer layT with | some l => { o with layer := l } | none => o
         ({ st with downs := setNth st.downs i (r.st, o') }, match ov with | some m => .oracle m | none => v)
       | none => (st, .badop "wnack index")
